@@ -119,7 +119,7 @@ func vpC32MutateChar(t *rapid.T, s string) (string, string) {
 func TestVP_C32_address(t *testing.T) {
 	col := kit.New(t, "C32", "rapid: addresses from seed bytes (incl. public spend keys with a leading zero byte), print/parse/JSON round trip; then candidates derived from the printed form: single-character replacement / insertion / deletion / transposition, junk characters, prefix and white-space variants, one payload or checksum byte changed and re-encoded, key bytes replaced (small-order, non-canonical, random, other valid key) with a recomputed checksum, and random strings with the XIN prefix; oracle: every candidate is rejected or prints back identically; non-trivial = mutated string that keeps the XIN prefix and a valid alphabet; distinct by candidate string")
 	col.Require("roundtrip", "leading-zero-key", "replace-alphabet", "replace-last", "replace-junk", "insert", "delete", "prefix", "wrap", "transpose",
-		"byte-payload", "byte-checksum", "rekey-valid-accepted", "rekey-invalid-point", "random-string", "accepted-candidate")
+		"byte-payload", "byte-checksum", "payload-with-tail", "rekey-valid-accepted", "rekey-invalid-point", "random-string", "accepted-candidate")
 	kit.SetChecks(kit.N(2000, 100000))
 	stale := false
 	defer func() {
@@ -186,6 +186,19 @@ func TestVP_C32_address(t *testing.T) {
 		for i := 0; i < 3; i++ {
 			cand, class := vpC32MutateChar(t, s)
 			judge(cand, class)
+		}
+		// the valid 68 bytes followed by more bytes, re-encoded: a longer string
+		// with a correct payload and checksum in front
+		{
+			payload := append(append([]byte{}, a.PublicSpendKey[:]...), a.PublicViewKey[:]...)
+			sum := crypto.Sha256Hash(append([]byte("XIN"), payload...))
+			body := append(append([]byte{}, payload...), sum[:4]...)
+			extra := rapid.SliceOfN(rapid.Byte(), 1, 5).Draw(t, "tail_bytes")
+			if rapid.Bool().Draw(t, "tail_zero") {
+				extra[0] = 0
+			}
+			judge("XIN"+base58.Encode(append(append([]byte{}, body...), extra...)), "payload-with-tail")
+			judge("XIN"+base58.Encode(append(append([]byte{}, extra...), body...)), "payload-with-head")
 		}
 		// non-ASCII aliases: a multi-byte character whose low byte is a base58
 		// letter, standing in for that letter (one for one) or for a "1x" pair
@@ -303,7 +316,7 @@ func (r vpC32Reader) ReadUTXOKeys(hash crypto.Hash, index uint) (*UTXOKeys, erro
 // in the spending transaction). Both sides must meet in the same key.
 func TestVP_C32_sender_recipient_api(t *testing.T) {
 	c := kit.New(t, "C32", "rapid: 1..4 accounts from drawn seeds; a funding transaction with 1..6 outputs (script and other output types) to drawn owner subsets, keys made by AddOutputWithType; a spending transaction whose 1..4 inputs reference drawn outputs in drawn order, so input position and output index differ; oracle: SignInput and SignUTXO succeed for the owners, every signature verifies under the output's one-time key at that owner's position, viewing the key with the owner's private view key recovers the owner's public spend key, and a non-owner cannot sign; non-trivial = an input whose position differs from the spent output's index; distinct by (seeds, layout)")
-	c.Require("position!=index", "multi-owner", "non-owner-refused", "SignUTXO")
+	c.Require("position!=index", "multi-owner", "non-owner-refused", "SignUTXO", "view-script-output-behind-other-type")
 	kit.SetChecks(kit.N(300, 20000))
 	rapid.Check(t, func(t *rapid.T) {
 		base := rapid.SliceOfN(rapid.Byte(), 16, 16).Draw(t, "seed")
@@ -313,6 +326,7 @@ func TestVP_C32_sender_recipient_api(t *testing.T) {
 			a := NewAddressFromSeed(vpC32Seed64(base, "acct", i))
 			accts = append(accts, &a)
 		}
+		viewShifted := false
 		fund := NewTransactionV5(XINAssetId)
 		fund.AddInput(crypto.Blake3Hash(base), 0)
 		nout := rapid.IntRange(1, 6).Draw(t, "outputs")
@@ -324,8 +338,32 @@ func TestVP_C32_sender_recipient_api(t *testing.T) {
 			for _, ai := range owners[o] {
 				as = append(as, accts[ai])
 			}
-			ot := rapid.SampledFrom([]uint8{OutputTypeScript, OutputTypeScript, OutputTypeNodeRemove, OutputTypeCustodianUpdateNodes}).Draw(t, "otype")
+			ot := rapid.SampledFrom([]uint8{OutputTypeScript, OutputTypeScript, OutputTypeScript, OutputTypeNodeRemove, OutputTypeCustodianUpdateNodes}).Draw(t, "otype")
 			fund.AddOutputWithType(ot, as, NewThresholdScript(uint8(k)), NewInteger(uint64(o+1)), vpC32Seed64(base, "out", o))
+		}
+		// the transaction-level view (ViewGhostKey) answers per script output, in
+		// order, with the spend keys the outputs were made for; other output types
+		// (with or without keys) sit in between
+		for ai, acct := range accts {
+			viewed := fund.ViewGhostKey(&acct.PrivateViewKey)
+			vi := 0
+			for o, out := range fund.Outputs {
+				if out.Type != OutputTypeScript {
+					continue
+				}
+				if vi >= len(viewed) || len(viewed[vi].Keys) != len(out.Keys) {
+					t.Fatalf("ViewGhostKey returned %d outputs, script output %d (position %d) has no counterpart", len(viewed), vi, o)
+				}
+				for ki, owner := range owners[o] {
+					if owner == ai && *viewed[vi].Keys[ki] != acct.PublicSpendKey {
+						t.Fatalf("ViewGhostKey with the view key of account %d: key %d of output %d (script output #%d) gives %s, the owner's spend key is %s", ai, ki, o, vi, viewed[vi].Keys[ki], acct.PublicSpendKey)
+					}
+				}
+				if vi != o {
+					viewShifted = true
+				}
+				vi++
+			}
 		}
 		fh := fund.AsVersioned().PayloadHash()
 		reader := vpC32Reader{}
@@ -342,6 +380,9 @@ func TestVP_C32_sender_recipient_api(t *testing.T) {
 		signed := &SignedTransaction{Transaction: *spend}
 		msg := signed.AsVersioned().PayloadHash()
 		classes := []string{}
+		if viewShifted {
+			classes = append(classes, "view-script-output-behind-other-type")
+		}
 		nt := false
 		for p, o := range picks {
 			var as []*Address
